@@ -1,9 +1,12 @@
 package props
 
 import (
+	"bytes"
 	"fmt"
+	"strings"
 
 	"fgverif/gen"
+	"fgverif/impl"
 	"fgverif/mon"
 )
 
@@ -16,7 +19,7 @@ func init() { register(c20{}) }
 func (c20) ID() string            { return "C20" }
 func (c20) EvidenceLevel() string { return "exploration" }
 func (c20) Rule() string {
-	return "case = (level in {-2,-1,1,2}, 32K/4K window, input of n bytes written with one Write and Close, no Flush). Expansion inputs: uniform, near-uniform, Fibonacci- and geometric-skewed alphabets, statistics flipping every 20000 bytes, random data with sparse far 4-byte matches, all-equal 65536-byte blocks, sizes 0,1,100,8449,65535,65536,65537,200000,1 MiB: len(out) <= n + n/32 + 256. Effectiveness inputs: every period 1..64 x n in {65536,65537,100000,300000} at levels 1,2,-1: len(out) <= n/32 + 1200. The stream must also pass the C01 decode oracle. Non-trivial: n > 0; distinct by (setting, data digest)."
+	return "case = (level in {-2,-1,1,2}, 32K/4K window, input of n bytes written with one Write and Close, no Flush, on a fresh Writer or (every fourth case) on one that was Reset after an earlier stream which was closed, abandoned, or failed on its destination during Close or Flush). Expansion inputs: uniform, near-uniform, Fibonacci- and geometric-skewed alphabets, statistics flipping every 20000 bytes, random data with sparse far 4-byte matches, all-equal 65536-byte blocks, sizes 0,1,100,8449,65535,65536,65537,200000,1 MiB: len(out) <= n + n/32 + 256. Effectiveness inputs: every period 1..64 x n in {65536,65537,100000,300000} at levels 1,2,-1: len(out) <= n/32 + 1200. The stream must also pass the C01 decode oracle. Non-trivial: n > 0; distinct by (setting, data digest)."
 }
 func (c20) NumCases(tier string) int {
 	if tier == "thorough" {
@@ -86,13 +89,46 @@ func (c20) Run(c *mon.Ctx, i int) {
 		d = gen.Make(r, fam, n)
 	}
 	n := len(d.B)
-	out, err := emit(c.API, s, d.B, []gen.Op{{Kind: "write", N: n}, {Kind: "close"}})
+	// history of the Writer before the measured stream: fresh, or Reset after an
+	// earlier stream that was finished, abandoned, or failed on its destination
+	history := "fresh"
+	var out []byte
+	var err error
+	if i%4 == 3 {
+		history = []string{"reset-after-close", "reset-after-failed-close", "reset-after-failed-flush", "reset-after-abandoned", "reset-after-failed-close"}[r.Intn(5)]
+		prev := gen.Make(r, []string{"uniform", "text", "alpha4"}[r.Intn(3)], r.Pick(1, 40, 700, 3000, 20000, 70000, 200000))
+		sink := &Sink{}
+		if history == "reset-after-failed-close" || history == "reset-after-failed-flush" {
+			sink.FailAt = r.Pick(1, 1, 2, 3)
+			sink.FailErr = errDst
+			sink.Partial = r.Bool()
+		}
+		var w impl.Writer
+		w, err = NewWriter(c.API, s, sink)
+		if err == nil {
+			w.Write(prev.B)
+			switch history {
+			case "reset-after-close", "reset-after-failed-close":
+				w.Close()
+			case "reset-after-failed-flush":
+				w.Flush()
+			}
+			var b bytes.Buffer
+			w.Reset(&b)
+			err = runOps(w, d.B, []gen.Op{{Kind: "write", N: n}, {Kind: "close"}})
+			out = b.Bytes()
+		}
+		history += fmt.Sprintf("(%s)", prev.Desc)
+	} else {
+		out, err = emit(c.API, s, d.B, []gen.Op{{Kind: "write", N: n}, {Kind: "close"}})
+	}
 	if err != nil {
 		c.Count("dropped:writer-error", 1)
 		return
 	}
 	c.Eval(1)
-	desc := map[string]interface{}{"setting": s.String(), "data": d.Desc, "data_sha": mon.Sha(d.B), "n": n, "out_len": len(out)}
+	c.Count("writer-history:"+strings.SplitN(history, "(", 2)[0], 1)
+	desc := map[string]interface{}{"setting": s.String(), "data": d.Desc, "data_sha": mon.Sha(d.B), "n": n, "out_len": len(out), "writer_history": history}
 	if sig, what, _ := DecodeChecks(c.API, out, d.B, nil); sig != "" {
 		c.Violate("round-trip|"+sig, fmt.Sprintf("%s data %s: %s", s, d.Desc, what), desc)
 		return
